@@ -18,6 +18,7 @@ structure RuleCfg where
 structure CRule where
   target : Option Str
   filter : Option Expr
+  src : RuleCfg := { target := [], filter := none }     -- what `GET /rules` serialises: target name and filter text
 
 structure Conn where
   name : Str
@@ -37,16 +38,22 @@ def compileFilter (txt : Str) : Option Expr :=
      | none => none)
   | _ => none
 
+/-- the filter part of `Rule::init`: `some none` = no filter, `none` = the filter does not compile -/
+def compileFilterOpt (f : Option Str) : Option (Option Expr) :=
+  match f with
+  | none => some none
+  | some txt => (compileFilter txt).map some
+
+/-- target resolution in `set_rules`: `some none` = the reserved `deny`, `none` = unknown upstream -/
+def resolveTarget (conns : List Conn) (t : Str) : Option (Option Str) :=
+  if t == "deny".toList then some none
+  else if conns.any (fun c => c.name == t) then some (some t)
+  else none
+
 def compileRule (conns : List Conn) (r : RuleCfg) : Option CRule :=
-  let flt : Option (Option Expr) := match r.filter with
-    | none => some none
-    | some txt => (compileFilter txt).map some
-  match flt with
-  | none => none
-  | some f =>
-    if r.target == "deny".toList then some { target := none, filter := f }
-    else if conns.any (fun c => c.name == r.target) then some { target := some r.target, filter := f }
-    else none
+  match compileFilterOpt r.filter, resolveTarget conns r.target with
+  | some f, some t => some { target := t, filter := f, src := r }
+  | _, _ => none
 
 /-- all rules compile or nothing changes -/
 def compileAll (conns : List Conn) : List RuleCfg → Option (List CRule)
@@ -116,5 +123,56 @@ def process (x : Ext) (q : Req) (fuel : Nat) (conns : List Conn) (rules : List C
     if connectOk c then
       [.setConnecting c, .connect c, .onConnect, .relay] ++ (if relayOk then [.terminated, .onFinish] else [.onError])
     else [.setConnecting c, .connect c, .onError]
+
+end Redproxy.Route
+
+namespace Redproxy.Route
+open Redproxy.MiluEval
+
+/-! ### concurrent readers and writers of the rule list (`tokio::sync::RwLock<Vec<Arc<Rule>>>`)
+
+  A request takes the read lock, walks the SHARED list rule by rule (`find_map` under the guard), and releases;
+  `set_rules` compiles outside the lock and then needs the write lock, which is granted only while no reader
+  holds the lock.  `seen` is a ghost copy of the list the reader saw when it took the lock. -/
+structure Reader where
+  q : Req
+  pos : Nat                      -- rules examined so far
+  result : Option (Option Str)   -- target of the first matching rule found so far
+  seen : List CRule              -- ghost
+
+structure LS where
+  rules : List CRule
+  active : List (Nat × Reader)
+
+inductive Ev where
+  | acquire (i : Nat) (q : Req)
+  | evalNext (i : Nat)
+  | release (i : Nat)
+  | swap (cfgs : List RuleCfg)
+
+def updReader (i : Nat) (f : Reader → Reader) : List (Nat × Reader) → List (Nat × Reader)
+  | [] => []
+  | (j, r) :: rest => if j == i then (j, f r) :: rest else (j, r) :: updReader i f rest
+
+/-- one step of the system; `none` = the step is not enabled (the task is blocked on the lock) -/
+def stepL (x : Ext) (fuel : Nat) (conns : List Conn) (s : LS) : Ev → Option LS
+  | .acquire i q => some { s with active := (i, { q := q, pos := 0, result := none, seen := s.rules }) :: s.active }
+  | .evalNext i =>
+    some { s with active := updReader i (fun r =>
+      match r.result, s.rules[r.pos]? with
+      | none, some rule => { r with pos := r.pos + 1, result := if ruleMatches x r.q fuel rule then some rule.target else none }
+      | _, _ => r) s.active }
+  | .release i => some { s with active := s.active.filter (fun p => p.1 != i) }
+  | .swap cfgs => if s.active.isEmpty then some { s with rules := (setRules conns s.rules cfgs).1 } else none
+
+def runL (x : Ext) (fuel : Nat) (conns : List Conn) : LS → List Ev → Option LS
+  | s, [] => some s
+  | s, e :: es => match stepL x fuel conns s e with
+    | some s' => runL x fuel conns s' es
+    | none => none
+
+/-- what a reader has found after examining the first `n` rules of `rules` -/
+def firstMatchUpTo (x : Ext) (q : Req) (fuel : Nat) (rules : List CRule) (n : Nat) : Option (Option Str) :=
+  firstMatch x q fuel (rules.take n)
 
 end Redproxy.Route
